@@ -12,7 +12,7 @@ class Scripted(np.random.Generator):
         return np.asarray(self.script.pop(0)).reshape(size if size is not None else ())
 
 def gen(rng: random.Random, tier: str):
-    n = {"quick": 300, "thorough": 10000}[tier]
+    n = {"quick": 300, "thorough": 60000}[tier]
     for k in range(n):
         nu, ni = rng.randint(1, 4), rng.randint(1, 5)
         pairs = [[u, i] for u in range(nu) for i in range(ni) if rng.random() < rng.choice([0.3, 0.6, 0.9])] or [[0, 0]]
@@ -82,4 +82,4 @@ SPEC = CheckSpec(
     pid="C20", theorems=[f"LK.Neg.C20_NegSample_{n}" for n in ["verified_or_warned", "combine_injective", "cols_from_draws", "popular_in_data", "every_column_reachable"]],
     correspondence_ops=["c20.sample"],
     nontrivial_rule="distinct cases reaching ≥1 of: uniform / popular, scripted / seeded draws, several per row, warned, row without negatives",
-    budgets={"quick": 300, "thorough": 10000}, gen=gen, run=run, shrink=shrink)
+    budgets={"quick": 300, "thorough": 60000}, gen=gen, run=run, shrink=shrink)
